@@ -4,13 +4,21 @@
  *   program ::= (s N) | (t K) | (n) | (m K) | (r) | (q P P) | (c P (K*) P) | (f P) | (d N P)
  *     (s N)        statement N
  *     (t K)        throw(kind K, "kind %i", $I(K))
+ *     (g N)        a library function raises inside the body: N even get(Table, missing key) -> KeyError, N odd rem(Array, absent) -> ValueError
  *     (n)          throw(NULL, "null")                          — outside the object domain of C07
  *     (m K)        throw(kind K, "kind %i")  (too few arguments) — outside the object domain of C07
  *     (r)          throw(x, "re") where x is the variable bound by the innermost enclosing handler (top level: TypeError)
  *     (q P P)      P; P
  *     (c P (K*) P) try { P } catch (e in K*) { P }              — filter arity 0…4
  *     (f P)        P in a callee frame;  (d N P)  P called through N frames
- * or `L a b c f1 f2 f3` (three lexically nested blocks in one C function).
+ * or `L a b c f1 f2 f3` (three lexically nested blocks in one C function),
+ * or `A` (the documented accessors exception_object() / exception_message(): defined or not; finding KF-C07-accessors-undefined).
+ * Kinds K < 100 are the library's Type objects TypeError … BusyError (K modulo 6); kinds 100 + j are objects that are NOT
+ * Types (j modulo 7): the heap Strings "A", "B", "A" (a second object), "TypeError", the heap Ints 5, 7, 5 (a second object).
+ * exception_catch compares a filter entry with the pending object by eq = the Cmp instance of the ENTRY: entries and
+ * exceptions of comparable types behave by block structure with "lists" = equal value (judged by the oracle); an entry that
+ * cannot be compared with the arriving exception makes eq raise ValueError / ClassError inside exception_catch — finding
+ * KF-C07-filter-eq-raises, oracle signature exn-filter-eq-raises (witness corpus/kf_c07_filter_eq_raises.ops; not generated).
  * Filters may name one object several times (kinds are taken modulo NKINDS): since fix a0ef2da exception_catch walks its
  * filter by index, so such a filter terminates and matches by membership like any other.
  * Each program runs in a forked child under alarm() (an uncaught exception exits the process, an overflow of the jump
@@ -25,7 +33,7 @@
 #include <errno.h>
 #include <sys/resource.h>
 
-enum { STMT, THROW, THROWNULL, THROWBAD, RETHROW, SEQ, TRY, CALL, DEEP };
+enum { STMT, THROW, THROWNULL, THROWBAD, RETHROW, SEQ, TRY, CALL, DEEP, LIBRAISE };
 #define MAXFILT 4
 typedef struct Node { int kind; int n; int filt[MAXFILT]; int nfilt; struct Node *a, *b; } Node;
 
@@ -42,6 +50,7 @@ static Node* parse_node(void) {
     case 's': skipws(); if (!is_digit()) return NULL; n->kind = STMT; n->n = parse_num(); break;
     case 't': skipws(); if (!is_digit()) return NULL; n->kind = THROW; n->n = parse_num(); break;
     case 'm': skipws(); if (!is_digit()) return NULL; n->kind = THROWBAD; n->n = parse_num(); break;
+    case 'g': skipws(); if (!is_digit()) return NULL; n->kind = LIBRAISE; n->n = parse_num(); break;
     case 'n': n->kind = THROWNULL; break;
     case 'r': n->kind = RETHROW; break;
     case 'q': n->kind = SEQ; n->a = parse_node(); n->b = parse_node(); if (!n->a || !n->b) return NULL; break;
@@ -61,13 +70,60 @@ static Node* parse_node(void) {
 }
 
 #define NKINDS 6
+#define NEXTRA 7
+#define IDX_CLASSERR 6          /* ClassError: never named by a program, raised by c_str / c_int on an object without the class */
+#define IDX_EXTRA0 7            /* index of extra object j = 7 + j (Lean: address 8 + j) */
+static var extra_obj[NEXTRA];
+static void make_extras(void) {
+  extra_obj[0] = new_root(String, $S("A")); extra_obj[1] = new_root(String, $S("B")); extra_obj[2] = new_root(String, $S("A"));
+  extra_obj[3] = new_root(String, $S("TypeError"));
+  extra_obj[4] = new_root(Int, $I(5)); extra_obj[5] = new_root(Int, $I(7)); extra_obj[6] = new_root(Int, $I(5));
+}
 static var kind_obj(int k) {
+  if (k >= 100) return extra_obj[(k - 100) % NEXTRA];
   switch (k % NKINDS) {
     case 0: return TypeError; case 1: return ValueError; case 2: return KeyError;
     case 3: return IOError;   case 4: return FormatError; default: return BusyError;
   }
 }
-static int kind_index(var e) { for (int k = 0; k < NKINDS; k++) if (kind_obj(k) == e) return k; return 99; }
+/* by IDENTITY: the two Strings "A" have different indices, so the trace says which object the handler bound */
+static int kind_index(var e) {
+  for (int k = 0; k < NKINDS; k++) if (kind_obj(k) == e) return k;
+  if (e == ClassError) return IDX_CLASSERR;
+  for (int j = 0; j < NEXTRA; j++) if (extra_obj[j] == e) return IDX_EXTRA0 + j;
+  return 99;
+}
+static int canon(int k) { return k >= 100 ? IDX_EXTRA0 + (k - 100) % NEXTRA : k % NKINDS; }
+
+/* the oracle's own table of what these objects are (class T = Type / S = String / I = Int; text or number) */
+static const char o_cls[IDX_EXTRA0 + NEXTRA] = { 'T','T','T','T','T','T','T', 'S','S','S','S', 'I','I','I' };
+static const char* o_text[IDX_EXTRA0 + NEXTRA] = { "TypeError","ValueError","KeyError","IOError","FormatError","BusyError","ClassError", "A","B","A","TypeError", 0,0,0 };
+static const long o_num[IDX_EXTRA0 + NEXTRA] = { 0,0,0,0,0,0,0, 0,0,0,0, 5,7,5 };
+/* entry a lists exception e: equal value */
+static int o_lists(int a, int e) {
+  if (o_cls[a] == 'I' || o_cls[e] == 'I') return o_cls[a] == o_cls[e] && o_num[a] == o_num[e];
+  return strcmp(o_text[a], o_text[e]) == 0;
+}
+/* the Cmp instance of an entry of class a can look at an exception of class e */
+static int o_comparable(int a, int e) {
+  char ca = o_cls[a], ce = o_cls[e];
+  return (ca == 'T' && ce == 'T') || (ca == 'S' && (ce == 'S' || ce == 'T')) || (ca == 'I' && ce == 'I');
+}
+/* how "%$" shows the object in the diagnostic */
+static void o_shown(int e, char* buf, size_t n) {
+  if (o_cls[e] == 'I') snprintf(buf, n, "%ld", o_num[e]); else if (o_cls[e] == 'S') snprintf(buf, n, "\"%s\"", o_text[e]); else snprintf(buf, n, "%s", o_text[e]);
+}
+
+/* the message of throw number k: three shapes (plain; a %$ argument and a literal %; longer than any fixed small buffer) */
+#define FILLER "0123456789abcdefghijklmnopqrstuvwxyzABCDEFGHIJKLMNOPQRSTUVWXYZ-0123456789abcdefghijklmnopqrstuvwxyzABCDEFGHIJKLMNOPQRSTUVWXYZ-0123456789abcdefghijklmnopqrstuvwxyzABCDEFGHIJKLMNOPQRSTUVWXYZ-0123456789abcdefghijklmnopqrstuvwxyzABCDEFGHIJKLMNOPQRSTUVWXYZ-0123456789abcdefghijklmnopqrstuvwxyzABCDEFGHIJKLMNOPQRSTUVWXYZ"
+static int o_plain_msgs;   /* op L: the throws are inline in run_lexical, always the plain shape */
+static void expected_msg(int k, char* buf, size_t n) {
+  switch (o_plain_msgs ? 0 : k % 3) {
+    case 0: snprintf(buf, n, "kind %d", k); break;
+    case 1: snprintf(buf, n, "\"obj\" is kind %d (100%%)", k); break;
+    default: snprintf(buf, n, "kind %d %s end", k, FILLER); break;
+  }
+}
 
 static int evfd = 1;
 static void emit(char c, int n) { char b[32]; int l = snprintf(b, sizeof b, "%c%d,", c, n); if (write(evfd, b, l) < 0) {} }
@@ -81,7 +137,18 @@ __attribute__((noinline)) static void run_deep(int k, Node* n, var x) {
 }
 
 /* every throw in a function of its own: the macro's tuple()/$I() temporaries stay out of the recursive frames */
-__attribute__((noinline)) static void do_throw(int k) { throw(kind_obj(k), "kind %i", $I(k)); }
+__attribute__((noinline)) static void do_throw(int k) {
+  switch (k % 3) {
+    case 0: throw(kind_obj(k), "kind %i", $I(k)); break;
+    case 1: throw(kind_obj(k), "%$ is kind %i (100%%)", $S("obj"), $I(k)); break;
+    default: throw(kind_obj(k), "kind %i %s end", $I(k), $S(FILLER)); break;
+  }
+}
+/* an exception raised by a library function (other frames between the throw and the try block, the library's own message) */
+static var lib_table, lib_array;
+__attribute__((noinline)) static void do_lib_raise(int k) {
+  if (k % 2 == 0) (void)get(lib_table, $S("zz")); else rem(lib_array, $I(42));
+}
 __attribute__((noinline)) static void do_throw_null(void) { throw(NULL, "null"); }
 __attribute__((noinline)) static void do_throw_bad(int k) { throw(kind_obj(k), "kind %i"); }
 __attribute__((noinline)) static void do_rethrow(var x) { throw(x, "re"); }
@@ -99,6 +166,7 @@ static void run(Node* n, var x) {
     case STMT: emit('s', n->n); break;
     case THROW: do_throw(n->n); break;
     case THROWNULL: do_throw_null(); break;
+    case LIBRAISE: do_lib_raise(n->n); break;
     case THROWBAD: do_throw_bad(n->n); break;
     case RETHROW: do_rethrow(x); break;
     case SEQ: run(n->a, x); run(n->b, x); break;
@@ -123,11 +191,11 @@ static void run_lexical(int a, int b, int c, int f1, int f2, int f3) {
       emit('s', 2);
       try {
         emit('s', 3);
-        if (a >= 0) throw(kind_obj(a), "a");
+        if (a >= 0) throw(kind_obj(a), "kind %i", $I(a));
         emit('s', 4);
-      } catch (e in kind_obj(f3)) { emit('h', kind_index(e)); if (b >= 0) throw(kind_obj(b), "b"); emit('s', 5); }
+      } catch (e in kind_obj(f3)) { emit('h', kind_index(e)); if (b >= 0) throw(kind_obj(b), "kind %i", $I(b)); emit('s', 5); }
       emit('s', 6);
-    } catch (e in kind_obj(f2)) { emit('h', kind_index(e)); if (c >= 0) throw(kind_obj(c), "c"); emit('s', 7); }
+    } catch (e in kind_obj(f2)) { emit('h', kind_index(e)); if (c >= 0) throw(kind_obj(c), "kind %i", $I(c)); emit('s', 7); }
     emit('s', 8);
   } catch (e in kind_obj(f1)) { emit('h', kind_index(e)); emit('s', 9); }
   emit('s', 10);
@@ -139,20 +207,31 @@ static void run_lexical(int a, int b, int c, int f1, int f2, int f3) {
 static char obuf[1 << 16]; static size_t olen;
 static long o_over_at;   /* trace length at the first such point, -1 = never */
 static int o_stop;
+static int o_clash;      /* a filter walk of the reference run reached an entry that cannot be compared with the exception */
+static char o_msg[1024]; /* the message of the last throw the reference run executed = what the record must hold at the end */
 static void oemit(char c, int n) { if (!o_stop) olen += snprintf(obuf + olen, sizeof obuf - olen, "%c%d,", c, n); }
-static int oeval(Node* n, int x, size_t depth) { /* returns -1 = completed, else the escaping kind */
+static int oeval(Node* n, int x, size_t depth) { /* returns -1 = completed, else the escaping object's index */
   if (o_stop) return -1;
   switch (n->kind) {
     case STMT: oemit('s', n->n); return -1;
-    case THROW: case THROWBAD: return n->n % NKINDS;
+    case THROW: expected_msg(n->n, o_msg, sizeof o_msg); return canon(n->n);
+    case THROWBAD: return canon(n->n);
+    case LIBRAISE:
+      if (n->n % 2 == 0) { snprintf(o_msg, sizeof o_msg, "Key \"zz\" not in Table!"); return 2; }
+      snprintf(o_msg, sizeof o_msg, "Object 42 not in Array!"); return 1;
     case THROWNULL: return -1;  /* not judged: see out_of_domain() */
-    case RETHROW: return x;
+    case RETHROW: snprintf(o_msg, sizeof o_msg, "re"); return x;
     case SEQ: { int r = oeval(n->a, x, depth); if (r >= 0 || o_stop) return r; return oeval(n->b, x, depth); }
     case CALL: case DEEP: return oeval(n->a, x, depth);
     case TRY: {
       if (depth >= EXCEPTION_MAX_DEPTH) { if (o_over_at < 0) o_over_at = (long)olen; o_stop = 1; return -1; }
       int r = oeval(n->a, x, depth + 1); if (r < 0 || o_stop) return -1;
-      int m = n->nfilt == 0; for (int i = 0; i < n->nfilt; i++) if (n->filt[i] % NKINDS == r) m = 1;
+      int m = n->nfilt == 0;
+      for (int i = 0; i < n->nfilt && !m; i++) {
+        int a = canon(n->filt[i]);
+        if (!o_comparable(a, r)) o_clash = 1;   /* territory of KF-C07-filter-eq-raises; block structure still asks: equal value? */
+        if (o_lists(a, r)) m = 1;
+      }
       if (!m) return r;
       oemit('h', r); return oeval(n->b, r, depth);
     }
@@ -166,8 +245,25 @@ static int out_of_domain(Node* n) {
 }
 static int has_dup_filter(Node* n) {
   if (!n) return 0;
-  if (n->kind == TRY) for (int i = 0; i < n->nfilt; i++) for (int j = 0; j < i; j++) if (n->filt[i] % NKINDS == n->filt[j] % NKINDS) return 1;
+  if (n->kind == TRY) for (int i = 0; i < n->nfilt; i++) for (int j = 0; j < i; j++) if (canon(n->filt[i]) == canon(n->filt[j])) return 1;
   return has_dup_filter(n->a) || has_dup_filter(n->b);
+}
+
+/* op `A`: the accessors the documentation names. Declared in Cello.h; weak here, so that the harness links when no source
+   file defines them (their address is then NULL). */
+#pragma weak exception_object
+#pragma weak exception_message
+static void accessor_probe(size_t line) {
+  var (*volatile fo)(void) = exception_object; var (*volatile fm)(void) = exception_message;
+  O("accessors object=%s message=%s", fo ? "defined" : "undefined", fm ? "defined" : "undefined");
+  if (!fo || !fm) {
+    X("sig=exn-accessor-undefined line=%zu what=exception_object / exception_message are declared in Cello.h and documented in Exception.c but defined nowhere: a program calling them does not link; a handler cannot read the thrown message", line);
+    return;
+  }
+  int ok_obj = 0, ok_msg = 0;
+  try { throw(KeyError, "probe %i", $I(7)); } catch (e) { ok_obj = fo() == e && e == KeyError; var m = fm(); ok_msg = m && strcmp(c_str(m), "probe 7") == 0; }
+  if (!ok_obj) X("sig=exn-accessor-wrong line=%zu what=exception_object() in a handler is not the thrown object", line);
+  if (!ok_msg) X("sig=exn-accessor-wrong line=%zu what=exception_message() in a handler is not the thrown message", line);
 }
 
 static void strip_comma(char* s) { size_t l = strlen(s); if (l && s[l-1] == ',') s[l-1] = 0; }
@@ -176,16 +272,20 @@ int main(int argc, char** argv) {
   v_init();
   if (argc < 2) { fprintf(stderr, "usage: h_exn <opfile>\n"); return 2; }
   size_t n; char** lines = v_read_lines(argv[1], &n);
-  size_t nprog = 0, n_ood = 0, n_dup = 0, n_over = 0;
+  size_t nprog = 0, n_ood = 0, n_dup = 0, n_over = 0, n_clash = 0;
   /* room for EXCEPTION_MAX_DEPTH recursive activations of the interpreter under ASan (the main thread's stack grows on demand) */
   { struct rlimit rl; if (getrlimit(RLIMIT_STACK, &rl) == 0) { rlim_t want = (rlim_t)256 << 20;
       if (rl.rlim_max != RLIM_INFINITY && want > rl.rlim_max) want = rl.rlim_max;
       if (rl.rlim_cur == RLIM_INFINITY || rl.rlim_cur < want) { rl.rlim_cur = want; setrlimit(RLIMIT_STACK, &rl); } } }
   /* make sure the main thread's Exception object exists before forking */
   (void)len(current(Exception));
+  make_extras();
+  lib_table = new_root(Table, String, Int); set(lib_table, $S("a"), $I(1));
+  lib_array = new_root(Array, Int, $I(1), $I(2));
   for (size_t li = 0; li < n; li++) {
     char* l = lines[li];
     if (v_skippable(l)) continue;
+    if (strcmp(l, "A") == 0) { accessor_probe(li + 1); continue; }
     Node* prog = NULL; int lex[6]; int is_lex = 0;
     if (l[0] == 'P' && l[1] == ' ') { cur = l + 2; prog = parse_node(); skipws(); if (prog && *cur) prog = NULL; }
     static char lexbuf[1024];
@@ -239,7 +339,7 @@ int main(int argc, char** argv) {
          (correspondence), refuted in Lean (C07_throw_null_refuted, C07_bad_message_refuted), not judged here */
       n_ood++; continue;
     }
-    olen = 0; obuf[0] = 0; o_over_at = -1; o_stop = 0;
+    olen = 0; obuf[0] = 0; o_over_at = -1; o_stop = 0; o_clash = 0; o_msg[0] = 0; o_plain_msgs = is_lex;
     int esc = oeval(prog, 0, 0);
     if (o_over_at >= 0) {
       /* the nesting does not fit: exception_try must abort at that block, nothing after the events so far */
@@ -251,6 +351,18 @@ int main(int argc, char** argv) {
     }
     static char full[1 << 16]; memcpy(full, obuf, olen + 1); strip_comma(full);
     if (dupf) n_dup++;
+    if (o_clash) {
+      /* territory of KF-C07-filter-eq-raises: eq(entry, exception) raises inside exception_catch. Every departure from
+         block structure on such a program carries that signature (a repaired exception_catch prints nothing here). */
+      n_clash++;
+      if (strcmp(full, tbuf) != 0 || (esc < 0) != (strcmp(end, "normal") == 0) || (esc >= 0 && strcmp(end, "fatal") != 0))
+        X("sig=exn-filter-eq-raises line=%zu what=a filter entry cannot be compared with the arriving exception: eq raised inside exception_catch and replaced it: got [%s] end=%s, block structure wants [%s] end=%s", li + 1, tbuf, end, full, esc < 0 ? "normal" : "fatal");
+      else if (esc >= 0) {
+        char shown[64]; o_shown(esc, shown, sizeof shown); static char want[128]; snprintf(want, sizeof want, "Uncaught %s\n", shown);
+        if (!strstr(ebuf, want)) X("sig=exn-filter-eq-raises line=%zu what=uncaught exception: the diagnostic does not name the thrown object %s (eq raised inside exception_catch)", li + 1, shown);
+      }
+      continue;
+    }
     if (strcmp(end, "hang") == 0) {
       X("sig=exn-hang line=%zu what=the program did not end within the time limit%s (events so far [%s]); block structure wants [%s] end=%s", li + 1,
         dupf ? " — a catch filter names one object twice: exception_catch must walk it to its end and match by membership" : "", tbuf, full, esc < 0 ? "normal" : "fatal");
@@ -259,8 +371,17 @@ int main(int argc, char** argv) {
     if (strcmp(full, tbuf) != 0) X("sig=exn-trace line=%zu what=handlers/statements differ from block structure: got [%s] want [%s]", li + 1, tbuf, full);
     if (esc < 0 && strcmp(end, "normal") != 0) X("sig=exn-end line=%zu what=program without escaping exception ended %s", li + 1, end);
     if (esc >= 0 && strcmp(end, "fatal") != 0) X("sig=exn-end line=%zu what=uncaught exception did not terminate with failure status (ended %s)", li + 1, end);
-    if (esc >= 0 && !strstr(ebuf, "Uncaught")) X("sig=exn-diag line=%zu what=no diagnostic for uncaught exception", li + 1);
+    if (esc >= 0 && strcmp(end, "fatal") == 0) {
+      /* the diagnostic: "!!\tUncaught <the escaping object>" and "!!\t\t <the message of the throw that raised it>" */
+      char shown[64]; o_shown(esc, shown, sizeof shown);
+      static char want[1200];
+      snprintf(want, sizeof want, "!!\tUncaught %s\n", shown);
+      if (!strstr(ebuf, "Uncaught")) X("sig=exn-diag line=%zu what=no diagnostic for uncaught exception", li + 1);
+      else if (!strstr(ebuf, want)) X("sig=exn-diag line=%zu what=the diagnostic of the uncaught exception does not name the escaping object %s", li + 1, shown);
+      snprintf(want, sizeof want, "!!\t\t %s\n", o_msg);
+      if (!strstr(ebuf, want)) X("sig=exn-diag-msg line=%zu what=the diagnostic of the uncaught exception does not carry the message of the throw that raised it (want `%s`)", li + 1, o_msg);
+    }
   }
-  I("programs=%zu out_of_domain=%zu dup_filter=%zu overflow=%zu", nprog, n_ood, n_dup, n_over);
+  I("programs=%zu out_of_domain=%zu dup_filter=%zu overflow=%zu clash=%zu", nprog, n_ood, n_dup, n_over, n_clash);
   return 0;
 }
